@@ -212,7 +212,7 @@ int fam_elim(const vh_args_t *a) {
   for (int k = 1; k <= 8; k++)
     for (int kbar = 1; kbar <= 6 * k; kbar++)
       for (int which = 0; which < 3; which++, sidx++) {
-        if (!a->tier && (int)((kbar + k + which + a->seed) % 3) != 0) continue;
+        if (!a->tier && which == 0 && (int)((kbar + k + a->seed) % 2) != 0) continue;   /* quick: all (k, kbar) for the reduced form and the top reduction, half for the non-reduced form */
         if (!VH_SHARD(a, sidx)) continue;
         vh_case_seed(a, sidx);
         VH_CASE(sidx)
